@@ -202,12 +202,26 @@ func domRecheck(r *engine.Run, rule string) {
 			}
 		}
 	}
+	recheckGroup := opGroup(r, r.Fn(rule, pkgSC, "StateCache", "Get"))
 	var links, memos, rechecks []*ssa.Call
 	badAdd := ""
 	engine.Instrs(f, func(in ssa.Instruction) {
 		c, ok := in.(*ssa.Call)
 		if !ok {
 			return
+		}
+		// the link lookup wrapped in a small helper of Get (prevHashOf(hash)): the call is the link lookup
+		if h := c.Call.StaticCallee(); h != nil && h != f && inGroup(recheckGroup, h) {
+			isLink := false
+			engine.Instrs(h, func(i2 ssa.Instruction) {
+				if c2, ok := i2.(*ssa.Call); ok && (lruCallOnField(c2, "Get", "hashCache") || lruCallOnField(c2, "Peek", "hashCache")) {
+					isLink = true
+				}
+			})
+			if isLink {
+				links = append(links, c)
+				return
+			}
 		}
 		switch {
 		case lruCallOnField(c, "Get", "hashCache"), lruCallOnField(c, "Peek", "hashCache"):
